@@ -306,6 +306,7 @@ EXTRA5["C20"] = (" Fifth session: the default-area branch of biot_savart_2d (are
                  "branch raised for every input (x and y columns handed over as two arguments): genuine defect, repaired by fix: commit 30f551c. Natives: areas=None against explicit cell areas; "
                  "2600 points at different heights in one call = in pieces = in reversed order (potential of the currents, field).")
 EXTRA5["C18"] += " Native: small finely sampled shapes 1e3 .. 5e4 from the origin keep area and vertex count under translation / rotation."
+EXTRA5["C07"] += " get_voronoi_polygon_indices is under contract (polygon of site i = stored adjacency values of row i minus one, entry by entry, one polygon per site in site order, adjacency of these elements; rows of symbolic length; with the adjacency contract: the triangles that contain site i); native brute force."
 EXTRA5["C07"] += " The bounded family includes a device laid out 5e5 coherence lengths from the origin."
 EXTRA5["C08"] += " Native history: one options object reused for a run in other units - what the first Solution reports (units, applied potential, currents in SI) does not change."
 EXTRA5["C05"] = " Fifth session: numpy model has isclose over the reals (so a tolerance-based 'is the final frame a regular save' test fails the named obligations of the Solution.times unit); native: other time scales (1e-9, 2e3) and a final partial interval that is tiny against the elapsed time."
